@@ -7,8 +7,8 @@ from typing import Annotated, Optional  # noqa: F401 - used by generated source
 
 import pyarrow as pa
 
-from vgi_rpc.rpc import CallContext, OutputCollector, ProducerState, RpcServer, Stream  # noqa: F401
-from vgi_rpc.utils import ArrowType  # noqa: F401
+from vgi_rpc.rpc import CallContext, OutputCollector, ProducerState, RpcServer, Stream, VersionError  # noqa: F401
+from vgi_rpc.utils import ArrowSerializableDataclass, ArrowType  # noqa: F401
 
 warnings.filterwarnings("ignore")
 OUT = pa.schema([pa.field("v", pa.int64())])
@@ -20,6 +20,12 @@ class Color(Enum):
     BLUE = "blue"
 
 
+@dataclass(frozen=True)
+class Point(ArrowSerializableDataclass):
+    x: int
+    y: int
+
+
 @dataclass
 class PS(ProducerState):
     n: int = 0
@@ -29,8 +35,12 @@ class PS(ProducerState):
 
 
 ANN = {"i64": "int", "i32": "Annotated[int, ArrowType(pa.int32())]", "f64": "float", "str": "str",
-       "oi64": "Optional[int]", "enum": "Color"}
-DEFAULT = {"i64": "7", "i32": "5", "f64": "2.5", "str": "'dflt'", "oi64": "None", "enum": "Color.RED"}
+       "oi64": "Optional[int]", "enum": "Color", "bool": "bool", "bytes": "bytes",
+       "f32": "Annotated[float, ArrowType(pa.float32())]", "list": "list[int]", "ostr": "Optional[str]",
+       "oenum": "Optional[Color]", "dc": "Point"}
+DEFAULT = {"i64": "7", "i32": "5", "f64": "2.5", "str": "'dflt'", "oi64": "None", "enum": "Color.RED", "bool": "True",
+           "bytes": "b'dflt'", "f32": "1.5", "list": "DEFAULT_LIST", "ostr": "None", "oenum": "None", "dc": "Point(0, 0)"}
+DEFAULT_LIST = [9]
 PNAMES = ["a", "b", "c"]
 
 
@@ -60,6 +70,12 @@ def build_service(sigs: list[list[dict]]):
         sep = ", " if sig else ""
         proto.append(f"    def u_{code}(self{sep}{params}) -> str: ...")
         proto.append(f"    def s_{code}(self{sep}{params}) -> Stream[ProducerState]: ...")
+        if len(sig) <= 2:        # the same unary method, also taking the framework-injected ctx
+            proto.append(f"    def c_{code}(self{sep}{params}) -> str: ...")
+            impl += [f"    def c_{code}(self{sep}{params}, ctx: CallContext = None) -> str:",
+                     f"        LOG.append(('c_{code}', {tup}, isinstance(ctx, CallContext)))",
+                     "        _behave()",
+                     f"        return repr({tup})"]
         impl += [f"    def u_{code}(self{sep}{params}) -> str:",
                  f"        LOG.append(('u_{code}', {tup}))",
                  "        _behave()",
@@ -74,9 +90,15 @@ def build_service(sigs: list[list[dict]]):
             raise TypeError("raised by the method body: unsupported operand type(s)")
         if mode["beh"] == "arrow_invalid":
             raise pa.ArrowInvalid("raised by the method body: cannot convert")
+        if mode["beh"] == "value_error":
+            raise ValueError("raised by the method body: invalid literal")
+        if mode["beh"] == "key_error":
+            raise KeyError("raised by the method body")
+        if mode["beh"] == "version_error":
+            raise VersionError("raised by the method body: unsupported version")
 
     ns = {"Protocol": __import__("typing").Protocol, "Annotated": Annotated, "Optional": Optional, "ArrowType": ArrowType,
-          "pa": pa, "Color": Color, "Stream": Stream, "ProducerState": ProducerState, "PS": PS, "OUT": OUT, "LOG": log,
+          "pa": pa, "Color": Color, "Point": Point, "DEFAULT_LIST": DEFAULT_LIST, "CallContext": CallContext, "Stream": Stream, "ProducerState": ProducerState, "PS": PS, "OUT": OUT, "LOG": log,
           "_behave": _behave}
     exec(compile("\n".join(proto) + "\n" + "\n".join(impl) + "\n", "<arg-contract-service>", "exec"), ns)  # noqa: S102
     server = RpcServer(ns["ArgSvc"], ns["ArgImpl"]())
@@ -98,9 +120,27 @@ def sent_value(t: str, i: int, v: int):
     if t == "str":
         x = f"s{v}-{i}" if v % 3 else f"ü{v}€{i}"
         return x, x
-    if t == "enum":
+    if t in ("enum", "oenum"):
         m = list(Color)[(v + i) % 3]
         return m.name, m
+    if t == "ostr":
+        x = f"o{v}-{i}"
+        return x, x
+    if t == "bool":
+        x = (v + i) % 2 == 0
+        return x, x
+    if t == "bytes":
+        x = bytes([v % 251, i, 255, 0])
+        return x, x
+    if t == "f32":
+        x = 0.25 + (v % 30) + i / 2
+        return x, x
+    if t == "list":
+        x = [v % 7, i, -1]
+        return x, x
+    if t == "dc":
+        pt = Point(v % 90, i)
+        return pt.serialize_to_bytes(), pt
     raise ValueError(t)
 
 
@@ -108,11 +148,19 @@ WIDEN = {  # same family, other width / representation ("compatible" retypes)
     "i64": [pa.int32(), pa.int16(), pa.uint64()], "oi64": [pa.int32(), pa.int8()], "i32": [pa.int64(), pa.int16()],
     "f64": [pa.float32(), pa.float16()], "str": [pa.large_utf8(), pa.string_view()],
     "enum": [pa.dictionary(pa.int32(), pa.utf8()), pa.dictionary(pa.int8(), pa.utf8()), pa.dictionary(pa.int16(), pa.large_utf8())],
+    "oenum": [pa.dictionary(pa.int32(), pa.utf8()), pa.dictionary(pa.int16(), pa.large_utf8())],
+    "ostr": [pa.large_utf8(), pa.string_view()], "bool": [pa.uint8(), pa.int8()],
+    "bytes": [pa.large_binary(), pa.binary(4)], "dc": [pa.large_binary()], "f32": [pa.float64(), pa.float16()],
+    # inner nullability / inner width / offset width: all "the same list of ints" to a lenient reader
+    "list": [pa.list_(pa.field("item", pa.int64(), nullable=False)), pa.large_list(pa.int64()), pa.list_(pa.int32()),
+             pa.list_(pa.int64(), 3)],
 }
 OTHER = {
     "i64": [pa.float64(), pa.utf8(), pa.bool_()], "oi64": [pa.float64(), pa.utf8()], "i32": [pa.float32(), pa.utf8()],
     "f64": [pa.int64(), pa.utf8(), pa.decimal128(10, 2)], "str": [pa.binary(), pa.int64(), pa.dictionary(pa.int16(), pa.utf8())],
-    "enum": [pa.utf8(), pa.int16(), pa.binary()],
+    "enum": [pa.utf8(), pa.int16(), pa.binary()], "oenum": [pa.utf8(), pa.int16()], "ostr": [pa.binary(), pa.int64()],
+    "bool": [pa.utf8(), pa.float64()], "bytes": [pa.utf8(), pa.int64()], "dc": [pa.utf8(), pa.int64()],
+    "f32": [pa.int32(), pa.utf8()], "list": [pa.utf8(), pa.int64(), pa.list_(pa.utf8())],
 }
 
 
@@ -120,22 +168,33 @@ def _array(value, typ: pa.DataType, src_kind: str):
     """One-element array of `typ` holding (a representation of) value; None -> null."""
     if value is None:
         return pa.nulls(1, typ)
+    num = isinstance(value, (int, float)) and not isinstance(value, bool)
     if pa.types.is_dictionary(typ):
         return pa.array([str(value)], pa.utf8()).cast(typ.value_type).dictionary_encode().cast(typ)
+    if pa.types.is_list(typ) or pa.types.is_large_list(typ) or pa.types.is_fixed_size_list(typ):
+        if isinstance(value, list) and not pa.types.is_string(typ.value_type):
+            return pa.array([value], typ)
+        return pa.array([["a", "b", "c"]] if pa.types.is_string(typ.value_type) else [[1, 2, 3]], typ)
+    if pa.types.is_boolean(typ):
+        return pa.array([bool(value) if isinstance(value, bool) else True], typ)
     if pa.types.is_integer(typ):
-        return pa.array([int(value)] if not isinstance(value, str) else [1], typ)
+        return pa.array([int(value) if (num or isinstance(value, bool)) else 1], typ)
     if pa.types.is_floating(typ):
-        arr = pa.array([float(value) if not isinstance(value, str) else 1.0], pa.float64())
-        return arr.cast(typ)
+        return pa.array([float(value) if num else 1.0], pa.float64()).cast(typ)
     if pa.types.is_decimal(typ):
         import decimal
 
         return pa.array([decimal.Decimal("1.50")], typ)
-    if pa.types.is_boolean(typ):
-        return pa.array([True], typ)
-    if pa.types.is_binary(typ):
-        return pa.array([str(value).encode()], typ)
-    return pa.array([str(value)], pa.utf8()).cast(typ)
+    if pa.types.is_fixed_size_binary(typ):
+        raw = value if isinstance(value, bytes) else str(value).encode()
+        return pa.array([(raw + b"\0" * typ.byte_width)[: typ.byte_width]], typ)
+    if pa.types.is_binary(typ) or pa.types.is_large_binary(typ):
+        return pa.array([value if isinstance(value, bytes) else str(value).encode()], typ)
+    text = value.decode("latin-1") if isinstance(value, bytes) else str(value)
+    return pa.array([text], pa.utf8()).cast(typ)
+
+
+BAD_DC = [b"garbage", b"", Point(1, 2).serialize_to_bytes()[:40], b"\xff\xff\xff\xff\x00\x00\x00\x00"]
 
 
 def concretise(case: dict, declared: pa.Schema, v: int) -> dict:
@@ -185,10 +244,21 @@ def concretise(case: dict, declared: pa.Schema, v: int) -> dict:
         seen[i] = None
         if p["t"] == "honest":         # the schema admits the null (declared non-nullable -> also a nullability flip)
             fields[i] = pa.field(fields[i].name, fields[i].type, nullable=True)
-    elif op == "enum_unknown":
-        bad = ["PURPLE", "red", "", "RED ", "Color.RED", "0"][v % 6]
-        arrays[i] = _array(bad, fields[i].type, "enum")
-        label = f"enum member {bad!r}"
+    elif op == "badvalue":
+        if sig[i]["t"] == "dc":
+            bad = BAD_DC[v % len(BAD_DC)]
+        else:
+            bad = ["PURPLE", "red", "", "RED ", "Color.RED", "0"][v % 6]
+        arrays[i] = _array(bad, fields[i].type, sig[i]["t"])
+        label = f"undecodable value {bad!r}"
+    elif op == "dup":
+        t = fields[i].type if p["t"] == "same" else OTHER[sig[i]["t"]][v % len(OTHER[sig[i]["t"]])]
+        fields.append(pa.field(fields[i].name, t, nullable=fields[i].nullable))
+        other_val, _ = sent_value(sig[i]["t"], i + 1, v + 1)
+        arrays.append(_array(other_val, t, sig[i]["t"]))
+        label = f"duplicate column {fields[i].name!r}: {t}"
+    elif op == "dropall":
+        fields, arrays = [], []
     schema = pa.schema(fields)
     batch = pa.RecordBatch.from_arrays(arrays, schema=schema) if fields else \
         pa.record_batch({"_": [0]}).select([])
